@@ -201,3 +201,212 @@ Proof.
   rewrite Forall_forall in TK. destruct (TK t It) as ((Wk & Ln) & _).
   unfold tpos_of in Et. inversion Et; subst. exists (N.to_nat (tp_off (tk_pos t))). split; [exact Ln|exact Wk].
 Qed.
+
+(* ------------------------------------------------------------------------------------------ *)
+(* entries: the range of a transaction or directive starts at a token and ends where a token starts;
+   the name of an account directive starts at a token and ends where a token ends *)
+Definition posrng (orig : list token) (r : rng) : Prop :=
+  exists t1 t2, In t1 orig /\ In t2 orig /\ r = mkRng (zpos (tk_pos t1)) (zpos (tk_pos t2)).
+Definition tok2rng (orig : list token) (r : rng) : Prop :=
+  exists t1 t2, In t1 orig /\ In t2 orig /\ r = mkRng (zpos (tk_pos t1)) (zpos (tk_end t2)).
+
+Definition dir_q (orig : list token) (d : directive) : Prop :=
+  match d with
+  | DAccount _ nr _ _ _ r => tok2rng orig nr /\ posrng orig r
+  | DCommodity c _ _ _ r => com_q orig c /\ posrng orig r
+  | DInclude _ r | DPrice _ _ _ r | DYear _ r | DDefault _ _ r => posrng orig r
+  end.
+
+Definition at_token (orig : list token) (sp : tpos) : Prop := exists t, In t orig /\ sp = tk_pos t.
+
+Lemma posrng_intro orig sp t2 : at_token orig sp -> In t2 orig -> posrng orig (mkRng (zpos sp) (zpos (tk_pos t2))).
+Proof. intros (t1 & I1 & ->) I2. exists t1, t2. auto. Qed.
+
+Lemma cur_in_orig' orig ps X : wf X -> sfx X ps -> suffix (toks ps) orig -> In (cur X) orig.
+Proof. intros WX S So. eapply suffix_in; [exact So|]. eapply suffix_in; [exact S|]. apply cur_in_toks. exact WX. Qed.
+
+Lemma parse_account_directive_q orig fuel sp ps d ps' : wf ps -> suffix (toks ps) orig -> at_token orig sp ->
+  parse_account_directive fuel sp ps = Some (Some d, ps') -> dir_q orig d.
+Proof.
+  intros W So Sp H. unfold parse_account_directive in H.
+  destruct (negb (is_ty (ctype ps) TAccount || is_ty (ctype ps) TText)); [discriminate|].
+  revert H. break_hdr; intro H;
+    match type of H with
+    | context [parse_subdirs fuel ?PS []] =>
+        assert (SF : sfx PS ps) by (sfacts; sfx_solve);
+        assert (LE : le PS ps) by (sub_facts; le_solve);
+        destruct (LE W) as [Wn _];
+        destruct (parse_subdirs fuel PS []) as [[sub psz]|] eqn:Esd; [|discriminate];
+        destruct (parse_subdirs_inv _ _ _ _ _ Wn Esd) as [Wz Sz];
+        inversion H; subst; clear H; cbn [dir_q]; split;
+        [ eexists; eexists; split; [|split; [|reflexivity]];
+          first [ eapply (cur_in_orig orig ps _ W So); [sub_facts; le_solve|sfacts; sfx_solve] ]
+        | apply posrng_intro; [exact Sp|]; eapply (cur_in_orig' orig ps); [exact Wz| |exact So]; eapply sfx_trans; [exact Sz|exact SF] ]
+    end.
+Qed.
+
+Lemma parse_commodity_directive_q orig fuel sp ps d ps' : wf ps -> suffix (toks ps) orig -> at_token orig sp ->
+  parse_commodity_directive fuel sp ps = Some (Some d, ps') -> dir_q orig d.
+Proof.
+  intros W So Sp H. unfold parse_commodity_directive in H.
+  revert H. break_hdr; intro H;
+    match type of H with
+    | context [parse_subdirs fuel ?PS []] =>
+        assert (SF : sfx PS ps) by (sfacts; sfx_solve);
+        assert (LE : le PS ps) by (sub_facts; le_solve);
+        destruct (LE W) as [Wn _];
+        destruct (parse_subdirs fuel PS []) as [[sub psz]|] eqn:Esd; [|discriminate];
+        destruct (parse_subdirs_inv _ _ _ _ _ Wn Esd) as [Wz Sz];
+        inversion H; subst; clear H; cbn [dir_q]; split;
+        [ first [ apply com0_q
+                | right; eexists; split; [|reflexivity]; eapply (cur_in_orig orig ps _ W So); [sub_facts; le_solve|sfacts; sfx_solve] ]
+        | apply posrng_intro; [exact Sp|]; eapply (cur_in_orig' orig ps); [exact Wz| |exact So]; eapply sfx_trans; [exact Sz|exact SF] ]
+    end.
+Qed.
+
+Ltac end_at W So Sp :=
+  apply posrng_intro; [exact Sp|]; eapply (cur_in_orig _ _ _ W So); [sub_facts; le_solve|sfacts; sfx_solve].
+
+Lemma parse_include_directive_q orig sp ps d ps' : wf ps -> suffix (toks ps) orig -> at_token orig sp ->
+  parse_include_directive sp ps = (Some d, ps') -> dir_q orig d.
+Proof.
+  intros W So Sp. unfold parse_include_directive. break_all; intro H; try discriminate; inversion H; subst; clear H; cbn [dir_q]; end_at W So Sp.
+Qed.
+Lemma parse_price_directive_q orig sp ps d ps' : wf ps -> suffix (toks ps) orig -> at_token orig sp ->
+  parse_price_directive sp ps = (Some d, ps') -> dir_q orig d.
+Proof.
+  intros W So Sp. unfold parse_price_directive. break_all; intro H; try discriminate; inversion H; subst; clear H; cbn [dir_q]; end_at W So Sp.
+Qed.
+Lemma parse_default_directive_q orig sp ps d ps' : wf ps -> suffix (toks ps) orig -> at_token orig sp ->
+  parse_default_directive sp ps = (Some d, ps') -> dir_q orig d.
+Proof.
+  intros W So Sp. unfold parse_default_directive. break_all; intro H; try discriminate; inversion H; subst; clear H; cbn [dir_q]; end_at W So Sp.
+Qed.
+Lemma parse_year_directive_q orig sp ps d ps' : wf ps -> suffix (toks ps) orig -> at_token orig sp ->
+  parse_year_directive sp ps = (Some d, ps') -> dir_q orig d.
+Proof.
+  intros W So Sp. unfold parse_year_directive. break_all; intro H; try discriminate; inversion H; subst; clear H; cbn [dir_q]; end_at W So Sp.
+Qed.
+
+Lemma parse_directive_q orig fuel ps d ps' : wf ps -> suffix (toks ps) orig ->
+  parse_directive fuel ps = Some (Some d, ps') -> dir_q orig d.
+Proof.
+  intros W So H. unfold parse_directive in H.
+  assert (Sp : at_token orig (tk_pos (cur ps))).
+  { exists (cur ps). split; [|reflexivity]. eapply (cur_in_orig orig ps ps W So); [apply le_refl|apply sfx_refl]. }
+  destruct (adv_le ps W) as [W1 _]. assert (So1 : suffix (toks (adv ps)) orig) by (eapply suffix_trans; [apply adv_sfx|exact So]).
+  destruct (beq (tk_val (cur ps)) (bs "account")); [exact (parse_account_directive_q orig fuel _ _ d ps' W1 So1 Sp H)|].
+  destruct (beq (tk_val (cur ps)) (bs "commodity")); [exact (parse_commodity_directive_q orig fuel _ _ d ps' W1 So1 Sp H)|].
+  destruct (beq (tk_val (cur ps)) (bs "include")); [inversion H as [H1]; exact (parse_include_directive_q orig _ _ d ps' W1 So1 Sp H1)|].
+  destruct (beq (tk_val (cur ps)) (bs "P")); [inversion H as [H1]; exact (parse_price_directive_q orig _ _ d ps' W1 So1 Sp H1)|].
+  destruct (beq (tk_val (cur ps)) (bs "Y") || beq (tk_val (cur ps)) (bs "year")); [inversion H as [H1]; exact (parse_year_directive_q orig _ _ d ps' W1 So1 Sp H1)|].
+  destruct (beq (tk_val (cur ps)) (bs "D")); [inversion H as [H1]; exact (parse_default_directive_q orig _ _ d ps' W1 So1 Sp H1)|].
+  discriminate.
+Qed.
+
+(* the range of a transaction starts at its date token and ends where a token starts *)
+Lemma parse_transaction_rng orig fuel ps tx ps' : wf ps -> suffix (toks ps) orig ->
+  parse_transaction fuel ps = Some (Some tx, ps') -> posrng orig (tx_rng tx).
+Proof.
+  intros W So H. destruct (parse_transaction_R fuel ps (Some tx) ps' H W) as (W' & S' & _).
+  assert (Sp : at_token orig (tk_pos (cur ps))).
+  { exists (cur ps). split; [|reflexivity]. eapply (cur_in_orig orig ps ps W So); [apply le_refl|apply sfx_refl]. }
+  assert (E : tx_rng tx = mkRng (zpos (tk_pos (cur ps))) (zpos (tk_pos (cur ps')))).
+  { unfold parse_transaction in H. destruct (parse_date ps) as [[d|] p1]; [|discriminate].
+    revert H. break_hdr; intro H;
+      match type of H with
+      | context [parse_postings fuel ?PS []] => destruct (parse_postings fuel PS []) as [[posts psz]|]; [|discriminate]; inversion H; subst; reflexivity
+      end. }
+  rewrite E. apply posrng_intro; [exact Sp|]. eapply (cur_in_orig' orig ps ps' W' S' So).
+Qed.
+
+Definition jrn_q (orig : list token) (j : journal) : Prop :=
+  Forall (fun t => tx_q orig t /\ posrng orig (tx_rng t)) (j_txs j) /\
+  Forall (dir_q orig) (j_dirs j) /\
+  Forall (fun i => posrng orig (inc_rng i)) (j_includes j).
+
+Lemma parse_journal_q2 orig : forall fuel ps j j' ps', wf ps -> suffix (toks ps) orig ->
+  parse_journal fuel ps j = Some (j', ps') -> jrn_q orig j -> jrn_q orig j'.
+Proof.
+  induction fuel as [|fuel IH]; intros ps j j' ps' W So H Fj; [discriminate|].
+  cbn [parse_journal] in H.
+  destruct (is_ty (ctype ps) TEOF). { inversion H; subst. exact Fj. }
+  assert (STEP : forall X jx, le X ps -> sfx X ps -> jrn_q orig jx -> parse_journal fuel X jx = Some (j', ps') -> jrn_q orig j').
+  { intros X jx LE SX EJ HX. destruct (LE W) as [WX _].
+    apply (IH X jx j' ps' WX); [eapply suffix_trans; [exact SX|exact So]|exact HX|exact EJ]. }
+  destruct (is_ty (ctype ps) TNewline). { eapply (STEP (adv ps) j); [apply adv_le|apply adv_sfx|exact Fj|exact H]. }
+  destruct (is_ty (ctype ps) TComment).
+  { pose proof (parse_comment_le ps) as LC. pose proof (parse_comment_sfx ps) as SC.
+    destruct (parse_comment ps) as [c ps1]. cbn [snd] in *. eapply (STEP ps1); [exact LC|exact SC| |exact H]. exact Fj. }
+  destruct Fj as (F1 & F2 & F3).
+  destruct (is_ty (ctype ps) TDate).
+  { destruct (parse_transaction fuel ps) as [[otx ps1]|] eqn:Et; [|discriminate].
+    destruct (parse_transaction_R fuel ps otx ps1 Et W) as (W1 & S1 & _).
+    assert (So1 : suffix (toks ps1) orig) by (eapply suffix_trans; [exact S1|exact So]).
+    destruct otx as [tx|].
+    - apply (IH ps1 _ j' ps' W1 So1 H). split; [|split; assumption]. cbn [j_txs]. apply Forall_app. split; [exact F1|].
+      constructor; [|constructor]. split; [exact (parse_transaction_q orig fuel ps tx ps1 W So Et)|exact (parse_transaction_rng orig fuel ps tx ps1 W So Et)].
+    - apply (IH ps1 j j' ps' W1 So1 H). split; [|split]; assumption. }
+  destruct (is_ty (ctype ps) TDirective).
+  { destruct (parse_directive fuel ps) as [[od ps1]|] eqn:Ed; [|discriminate].
+    destruct (parse_directive_inv fuel ps od ps1 W Ed) as [W1 S1].
+    assert (So1 : suffix (toks ps1) orig) by (eapply suffix_trans; [exact S1|exact So]).
+    destruct od as [d|].
+    - pose proof (parse_directive_q orig fuel ps d ps1 W So Ed) as Dq.
+      destruct d; apply (IH ps1 _ j' ps' W1 So1 H); cbn [jrn_q j_txs j_dirs j_includes];
+        first [ split; [exact F1|split; [apply Forall_app; split; [exact F2|constructor; [exact Dq|constructor]]|exact F3]]
+              | split; [exact F1|split; [exact F2|apply Forall_app; split; [exact F3|constructor; [exact Dq|constructor]]]] ].
+    - apply (IH ps1 j j' ps' W1 So1 H). split; [|split]; assumption. }
+  eapply (STEP (skip_to_next_line (perr ps)) j); [le_tac|sfx_tac|split; [|split]; assumption|exact H].
+Qed.
+
+(* ends against the text *)
+Definition pos_in_text (text : list N) (p : pos) : Prop :=
+  exists tp, zpos tp = p /\ tpos_ok text tp.
+
+Lemma posrng_in_text text toks r : Forall (tok_ok text) toks -> posrng toks r ->
+  pos_in_text text (r_start r) /\ pos_in_text text (r_end r).
+Proof.
+  intros F (t1 & t2 & I1 & I2 & ->). rewrite Forall_forall in F. destruct (F t1 I1) as (A & _). destruct (F t2 I2) as (B & _).
+  cbn [r_start r_end]. split; [exists (tk_pos t1)|exists (tk_pos t2)]; auto.
+Qed.
+
+Lemma tok2rng_in_text text toks r : Forall (tok_ok text) toks -> tok2rng toks r ->
+  pos_in_text text (r_start r) /\ pos_in_text text (r_end r).
+Proof.
+  intros F (t1 & t2 & I1 & I2 & ->). rewrite Forall_forall in F. destruct (F t1 I1) as (A & _). destruct (F t2 I2) as (_ & B & _).
+  cbn [r_start r_end]. split; [exists (tk_pos t1)|exists (tk_end t2)]; auto.
+Qed.
+
+(* for EVERY byte string: both ends of the range of every transaction, every directive and every include,
+   and of the declared name of every account / commodity directive, are places of the text *)
+Theorem parse_entry_ranges_in_text text j errs : parse text = Some (j, errs) ->
+  (forall tx, In tx (j_txs j) -> pos_in_text text (r_start (tx_rng tx)) /\ pos_in_text text (r_end (tx_rng tx))) /\
+  (forall i, In i (j_includes j) -> pos_in_text text (r_start (inc_rng i)) /\ pos_in_text text (r_end (inc_rng i))) /\
+  (forall d, In d (j_dirs j) ->
+     match d with
+     | DAccount _ nr _ _ _ r =>
+         (pos_in_text text (r_start nr) /\ pos_in_text text (r_end nr)) /\ (pos_in_text text (r_start r) /\ pos_in_text text (r_end r))
+     | DCommodity c _ _ _ r => com_in_text text c /\ (pos_in_text text (r_start r) /\ pos_in_text text (r_end r))
+     | DInclude _ r | DPrice _ _ _ r | DYear _ r | DDefault _ _ r => pos_in_text text (r_start r) /\ pos_in_text text (r_end r)
+     end).
+Proof.
+  unfold parse. destruct (lex text) as [ts|] eqn:El; [|discriminate].
+  destruct (parse_journal (length ts + 2) (mkPS ts [] 0%Z) (mkJournal [] [] [] [])) as [[j0 ps]|] eqn:Ej; [|discriminate].
+  intro H. inversion H; subst j0 errs. clear H.
+  pose proof (lex_positions text ts El) as TK.
+  assert (W : wf (mkPS ts [] 0%Z)) by (apply wf_ends; cbn [toks]; exact (lex_all_ends_eof _ _ _ El)).
+  assert (J0 : jrn_q ts (mkJournal [] [] [] [])) by (split; [|split]; constructor).
+  destruct (parse_journal_q2 ts _ _ _ _ _ W (suffix_refl ts) Ej J0) as (Q1 & Q2 & Q3).
+  rewrite Forall_forall in Q1, Q2, Q3. split; [|split].
+  - intros tx I. destruct (Q1 tx I) as [_ R]. exact (posrng_in_text text ts _ TK R).
+  - intros i I. exact (posrng_in_text text ts _ TK (Q3 i I)).
+  - intros d I. specialize (Q2 d I). destruct d; cbn [dir_q] in Q2.
+    + destruct Q2 as [A B]. split; [exact (tok2rng_in_text text ts _ TK A)|exact (posrng_in_text text ts _ TK B)].
+    + destruct Q2 as [A B]. split; [|exact (posrng_in_text text ts _ TK B)].
+      destruct A as [E|E]; [left; exact E|right; exact (tokrng_in_text text ts _ TK E)].
+    + exact (posrng_in_text text ts _ TK Q2).
+    + exact (posrng_in_text text ts _ TK Q2).
+    + exact (posrng_in_text text ts _ TK Q2).
+    + exact (posrng_in_text text ts _ TK Q2).
+Qed.
